@@ -43,10 +43,12 @@ type ThreadsCase struct {
 	Ctx     []int     `json:"ctx"` // context index of each thread
 	N       int       `json:"n"`
 	Plan    []Perturb `json:"plan"`
+	// Timing: the r9nano timing platform (request-based copy path) instead of emulation
+	Timing bool `json:"timing,omitempty"`
 }
 
 var yieldPoints = []string{"drain-subscribed", "drain-signaled", "drain-before-wait", "drain-after-wait", "drain-return",
-	"async-signal", "async-ticked", "async-idle", "engine-start", "engine-run-returned", "engine-exit"}
+	"async-signal", "async-ticked", "async-idle", "engine-start", "engine-run-returned", "engine-exit", "queue-dequeued"}
 
 func genThreadsCase(t *rapid.T) ThreadsCase {
 	var c ThreadsCase
@@ -70,6 +72,7 @@ func genThreadsCase(t *rapid.T) ThreadsCase {
 		ops = append(ops, TOp{Kind: "drain", Q: 0}, TOp{Kind: "drain", Q: 1}, TOp{Kind: "drain", Q: 2})
 		c.Threads = append(c.Threads, ops)
 	}
+	c.Timing = rapid.IntRange(0, 4).Draw(t, "timing") == 0
 	np := rapid.IntRange(0, 5).Draw(t, "nperturb")
 	for i := 0; i < np; i++ {
 		c.Plan = append(c.Plan, Perturb{
@@ -77,6 +80,10 @@ func genThreadsCase(t *rapid.T) ThreadsCase {
 			Nth:     rapid.IntRange(1, 5).Draw(t, "nth"),
 			SleepUS: rapid.SampledFrom([]int{0, 100, 1000, 5000, 20000}).Draw(t, "sleep"),
 		})
+	}
+	if rapid.IntRange(0, 2).Draw(t, "holdhandoffs") == 0 {
+		// hold the simulation thread every time it has handed a finished command back (Nth 0 = always)
+		c.Plan = append(c.Plan, Perturb{Point: "queue-dequeued", Nth: 0, SleepUS: rapid.SampledFrom([]int{0, 100, 1000}).Draw(t, "holdsleep")})
 	}
 	return c
 }
@@ -120,6 +127,9 @@ func (h *threadsHarness) hook(point string) {
 		}
 	}
 	sleep, ok := h.plan[point][k]
+	if !ok {
+		sleep, ok = h.plan[point][0] // Nth 0 = every arrival
+	}
 	if ok {
 		h.fired++
 		if point == "drain-before-wait" && sleep > 0 {
@@ -258,7 +268,11 @@ func RunThreadsCase(c ThreadsCase) (res stats.Result) {
 		}
 		h.plan[p.Point][p.Nth] = p.SleepUS
 	}
-	pl, err := plat.New(plat.Spec{NumGPUs: 1})
+	spec := plat.Spec{NumGPUs: 1}
+	if c.Timing {
+		spec = plat.Spec{NumGPUs: 1, Timing: true, GPUType: "r9nano"}
+	}
+	pl, err := plat.New(spec)
 	if err != nil {
 		panic(fmt.Sprintf("harness: %v", err))
 	}
@@ -412,6 +426,14 @@ loop:
 	}
 	h.mu.Lock()
 	res.Labels = append(res.Labels, fmt.Sprintf("threads:%d", len(c.Threads)))
+	if c.Timing {
+		res.Labels = append(res.Labels, "timing-platform")
+	}
+	for _, p := range c.Plan {
+		if p.Point == "queue-dequeued" && p.Nth == 0 {
+			res.Labels = append(res.Labels, "simulation-thread-held-after-every-hand-off")
+		}
+	}
 	if h.fired > 0 {
 		res.Labels = append(res.Labels, "perturbation-fired")
 	}
